@@ -21,7 +21,7 @@ RULE = ('case = MultiChain over 2-5 configs of one generated pipeline (copies of
         'a value obtained through one member is served to the others without run and without reading the store again (audit hook); '
         'MultiChain.force marks in every member exactly the closure of the named tasks. non-trivial = >=2 members sharing >=1 task object and '
         'differing in >=1 task; distinct = hash(files, roots, steps)')
-REQUIRED = ['chains_on_shared_registry', 'object_config_multichains', 'multichains', 'members_compared', 'identity_pairs_same', 'identity_pairs_different', 'values_observed', 'served_from_memory_across_members',
+REQUIRED = ['multi_force_by_bare_string', 'chains_on_shared_registry', 'object_config_multichains', 'multichains', 'members_compared', 'identity_pairs_same', 'identity_pairs_different', 'values_observed', 'served_from_memory_across_members',
             'multi_force_steps']
 ASSUMPTIONS = ['member configs have distinct names (MultiChain requires it)',
                'how often a task shared between members is recomputed by MultiChain.force(recompute=True) is not judged (one pass per chain)']
@@ -158,6 +158,10 @@ def run_multi_case(rng, res: CaseResult):
                 st['delete_data'] = True
             if rng.random() < 0.5:
                 st['container'] = rng.choice(['tuple', 'set', 'generator', 'map', 'dict'])
+            elif len(st['tasks']) == 1 and len(steps) % 2 == 0:
+                # one task given as a bare name, not in a list (chosen without drawing from the generator: earlier seeds keep their cases)
+                st['scalar'] = True
+                res.count('multi_force_by_bare_string')
             steps.append(st)
             for j in range(k):
                 steps.append({'op': 'snapshot', 'chain': 'mc', 'member': names[j], 'light': True, 'mi': j})
